@@ -1,7 +1,7 @@
 """C15 — Clustering and vertexing: thresholds, construction guard, two-track filter, remainder bookkeeping shape."""
 from .. import accept, report
 from ..facts import AnchorMissing
-from ..guards import analysis, closure_info, closure_ret, subst_upvars, as_cmp
+from ..guards import analysis, closure_info, closure_ret, subst_upvars, as_cmp, impl_cmp
 from ..sym import Sym, forward_paths, path_atoms, atom_str
 from ..terms import strip, short, cname, unmut, walk
 
@@ -161,7 +161,25 @@ def run(prog, tier, res):
                     if pos[0] == "call" and short(pos[1]) == "Iterator::position":
                         it = unmut(pos[2][0])
                         if it[0] == "call" and short(it[1]) == "<impl [T]>::iter" and unmut(strip_deref(it[2][0])) == ("param", 1):
-                            ok = True
+                            # the element removed is the one EQUAL to the clustered element (not "the first that differs")
+                            ci = closure_info(prog, an, strip(pos[2][1]))
+                            eq_ok = False
+                            if ci:
+                                rets = closure_ret(prog, ci[0])
+                                if len(rets) == 1:
+                                    rt = subst_upvars(strip(rets[0]), ci[1])
+                                    c = as_cmp(rt, True)
+                                    if c is None and rt[0] == "call" and len(rt[2]) == 2 and impl_cmp(rt[1]):
+                                        c = (impl_cmp(rt[1]), rt[2][0], rt[2][1])     # derived / implemented PartialEq of the element type
+                                    if c and c[0] == "Eq":
+                                        sides = [strip(c[1]), strip(c[2])]
+                                        has_arg = any(any(y == ("carg", 0) for y in walk(x)) for x in sides)
+                                        has_cap = any(not any(y[0] in ("carg", "cenv") for y in walk(x)) for x in sides)
+                                        eq_ok = has_arg and has_cap
+                            if eq_ok:
+                                ok = True
+                            else:
+                                why_eq = "the `position` predicate is not equality with the clustered element"
         # no other removal primitive on the input vector
         others = [short(cname(t)) for bb, t in body.calls() if short(cname(t)) in ("Vec::<T, A>::retain", "Vec::<T, A>::remove", "Vec::<T, A>::drain", "Vec::<T, A>::truncate", "Vec::<T, A>::clear", "Vec::<T, A>::dedup")
                   and unmut(an.terms.operand(t["args"][0])) == ("param", 1)]
@@ -171,6 +189,69 @@ def run(prog, tier, res):
             res.hit(R4)
         else:
             res.violate(R4, fn, "remainder", "the remainder of %s is not computed by removing, for each clustered element, the input element found by `position(..).unwrap()` with `swap_remove` (other removals: %s): elements can be lost or kept twice" % (what, others), body.where())
+    # ------------------------------------------------------------------ R5: beamline clustering is a partition of its input
+    R5 = res.rule("C15.R5", "beamline_clusters puts every track in exactly one cluster: seed = element 0, loop over the rest (skip(1)), one push of the loop's track on every iteration path", 3)
+    BEAM = R + "vertex_fitting::beamline_clusters"
+    bb_ = prog.body(BEAM)
+    ban = analysis(prog, bb_)
+    bsy = Sym(prog, ban, slice_param=99)
+    res.functions.add(BEAM)
+    from ..sym import loop_iteration_paths
+    # (a) the track loop iterates into_iter(tracks).skip(1)
+    skip_ok = False
+    loop_hdr = None
+    elem = None
+    for bk, t in bb_.calls():
+        if short(cname(t)) == "Iterator::next":
+            it = unmut(ban.terms.operand(t["args"][0]))
+            while it[0] == "call" and short(it[1]) == "IntoIterator::into_iter" and it[2]:
+                it = unmut(it[2][0])
+            if it[0] == "call" and short(it[1]) == "Iterator::skip" and len(it[2]) == 2:
+                n = bsy.poly(it[2][1])
+                src = unmut(it[2][0])
+                while src[0] == "call" and short(src[1]) == "IntoIterator::into_iter" and src[2]:
+                    src = unmut(src[2][0])
+                if n is not None and n.is_const() and n.const_value() == 1 and src[0] in ("param", "mut") and src[1] == 1:
+                    skip_ok = True
+                    for (tl, hd) in bb_.back_edges():
+                        if bk in bb_.natural_loop(tl, hd):
+                            loop_hdr = hd
+    if skip_ok:
+        res.hit(R5)
+    else:
+        res.violate(R5, BEAM, "skip", "the clustering loop does not iterate `tracks.into_iter().skip(1)`: the seed track is clustered twice or a track is skipped", bb_.where())
+    # (b) the seed of the first cluster is tracks[0]
+    seed_ok = False
+    for bk, t in bb_.calls():
+        if short(cname(t)) == "Index::index" and len(t["args"]) == 2:
+            base = unmut(strip_deref(ban.terms.operand(t["args"][0])))
+            ix = bsy.poly(ban.terms.operand(t["args"][1]))
+            if base[0] in ("param", "mut") and base[1] == 1 and ix is not None and ix.is_const():
+                if ix.const_value() == 0 and (loop_hdr is None or bb_.dominates(bk, loop_hdr)):
+                    seed_ok = True
+                else:
+                    seed_ok = False
+                    break
+    if seed_ok:
+        res.hit(R5)
+    else:
+        res.violate(R5, BEAM, "seed", "the first cluster is not seeded with `tracks[0]` before the loop", bb_.where())
+    # (c) exactly one push on every iteration path
+    push_ok = loop_hdr is not None
+    if loop_hdr is not None:
+        pushes = set(bk for bk, t in bb_.calls() if short(cname(t)) == "Vec::<T, A>::push")
+        paths = loop_iteration_paths(ban, loop_hdr) or []
+        body_paths = [bl for e, bl in paths if any(short(cname(bb_.blocks[x]["t"])) == "Iterator::next" for x in bl if bb_.blocks[x]["t"]["k"] == "call")]
+        for bl in body_paths:
+            n_push = len([x for x in bl if x in pushes])
+            has_body = len(bl) > 3
+            if has_body and n_push != 1:
+                push_ok = False
+        push_ok = push_ok and bool(body_paths)
+    if push_ok:
+        res.hit(R5)
+    else:
+        res.violate(R5, BEAM, "push", "an iteration of the clustering loop can push its track zero or several times", bb_.where())
     res.undecided = ["partition / conservation over all multisets (shared Hough bins, remove_unchecked/add bookkeeping)", "single-linkage connectivity of each cluster"]
 
 
